@@ -590,15 +590,21 @@ Proof.
   - destruct (fge0 w); [|discriminate]. rewrite (IH _ _ _ _ H). cbn [length]. lia.
 Qed.
 
-Lemma weighted_sample_f_spec : forall ws st i st', wf st ->
-  weighted_sample_f ws st = inr (i, st') -> (i < length ws)%nat /\ wf st'.
+Lemma uniform_f64_sample_wf : forall scale st x st', wf st -> uniform_f64_sample scale st = (x, st') -> wf st'.
 Proof.
-  intros ws st i st' Hw H. unfold weighted_sample_f, windex_new_f in H.
+  intros scale st x st' Hw H. unfold uniform_f64_sample in H. destruct (next_u64 st) as [y st1] eqn:E.
+  destruct (next_u64_spec _ _ _ Hw E) as [_ Hw1]. injection H as _ <-. exact Hw1.
+Qed.
+
+Lemma weighted_sample_f_spec : forall ws st i total st', wf st ->
+  weighted_sample_f ws st = inr (i, total, st') -> (i < length ws)%nat /\ wf st'.
+Proof.
+  intros ws st i total st' Hw H. unfold weighted_sample_f, windex_new_f in H.
   destruct ws as [|w0 r]; [discriminate|]. destruct (fge0 w0); [|discriminate].
   destruct (wcum_f r w0 []) as [e|[cum T]] eqn:Ec; [discriminate|].
-  destruct T as [m e| | |]; try discriminate. destruct (new_bounded 4 _ _) as [scale|]; [|discriminate].
-  destruct (next_u64 st) as [x st1] eqn:E. destruct (next_u64_spec _ _ _ Hw E) as [_ Hw1].
-  injection H as <- <-. split; [|exact Hw1].
-  pose proof (ppoint_le _ fle cum (fadd (fmul (fround (N.shiftr x 12) (-52)) scale) f_zero)) as P.
+  destruct (uniform_f64_new T) as [[| |]|scale]; try discriminate.
+  destruct (uniform_f64_sample scale st) as [chosen st1] eqn:E.
+  injection H as <- <- <-. split; [|eapply uniform_f64_sample_wf; eassumption].
+  pose proof (ppoint_le _ fle cum chosen) as P.
   rewrite (wcum_f_length _ _ _ _ _ Ec) in P. cbn [length] in *. lia.
 Qed.
